@@ -27,6 +27,59 @@ def lib_verdicts(rec, text, inp):
             rec.fail(f"crash|{how}|{type(e).__name__}|{frame_of(e)}", "national_total", inp, "verdict",
                      f"{type(e).__name__}: {e}")
             return None
+    # further routes to the same question: an object that was already validated WITHOUT the national check (by the constructor
+    # or by validate()) is validated again WITH it, or handed to a constructor that asks for it; and an object on which the
+    # national validation has just failed still answers is_valid / validate() without the flag as before
+    routes = {}
+
+    def revalidate():
+        return IBAN(text).validate(validate_bban=True)
+
+    def validate_twice():
+        u = IBAN(text, allow_invalid=True)
+        u.validate()
+        return u.validate(validate_bban=True)
+
+    def rewrap():
+        return IBAN(IBAN(text), validate_bban=True)
+
+    def is_valid_then_on():
+        u = IBAN(text, allow_invalid=True)
+        u.is_valid  # noqa: B018
+        return u.validate(validate_bban=True)
+    if out[0]:
+        for name, fn in (("revalidate", revalidate), ("validate_twice", validate_twice), ("rewrap", rewrap), ("is_valid_then_on", is_valid_then_on)):
+            try:
+                fn()
+                routes[name] = True
+            except SchwiftyException:
+                routes[name] = False
+            except Exception as e:  # noqa: BLE001
+                rec.fail(f"crash|{name}|{type(e).__name__}|{frame_of(e)}", "national_total", inp, "verdict", f"{type(e).__name__}: {e}")
+                return None
+        bad = sorted(k for k, v in routes.items() if v != out[1])
+        if bad:
+            rec.fail(f"route_differs|{bad[0]}", "flag_threaded", inp, {"ctor_with_flag": out[1]}, routes)
+        # the other direction: after the national validation was asked for (and perhaps failed), the flag-less questions on the
+        # same object still get the flag-less answer
+        try:
+            u = IBAN(text, allow_invalid=True)
+            try:
+                u.validate(validate_bban=True)
+            except SchwiftyException:
+                pass
+            after = [u.is_valid]
+            try:
+                after.append(u.validate() is True)
+            except SchwiftyException:
+                after.append(False)
+            if after != [True, True]:
+                rec.fail("flagless_answer_changed_after_national_validation", "flag_threaded", inp, [True, True], after)
+        except SchwiftyException:
+            pass
+        except Exception as e:  # noqa: BLE001
+            rec.fail(f"crash|after_on|{type(e).__name__}|{frame_of(e)}", "national_total", inp, "verdict", f"{type(e).__name__}: {e}")
+            return None
     return out
 
 
@@ -140,6 +193,9 @@ def check_unlisted(rec: Rec, text: str, origin: str):
 
 
 def replay(rec, case):
+    if case["input"].get("origin") == "configurations":
+        from ._configs import replay as _r
+        return _r(rec, case)
     i = case["input"]
     origin = i.get("origin", "replay")
     if origin == "registry-independence":
@@ -264,6 +320,11 @@ def shard_listed(arg):
         rec.notes.append(f"{cc}: edge field values reached: {sorted(seen_edge)}")
     if acc == 0 or rej == 0:
         raise HarnessError(f"{cc}: accept side {acc} / reject side {rej} is empty")
+    # bank / branch / account fields holding the literals of the source (vlib/dims.py: literal_dictionary)
+    from ._shared import literal_bbans
+    for lits_, b in literal_bbans(cc, rng):
+        want = check_listed(rec, cc, b, "source-literals")
+        rec.case("source-literals", (cc, b) if want is not None else None)
     return rec
 
 
@@ -284,6 +345,10 @@ def shard_unlisted(arg):
         m = t[:i] + rng.choice(ASCII_DIGITS + ASCII_UPPER + "- ") + t[i + 1:]
         check_unlisted(rec, m, "mutant")
         rec.case("mutant", (m,))
+    from ._shared import literal_bbans
+    for lits_, b in literal_bbans(cc, rng):
+        check_unlisted(rec, g.iban_of(cc, b), "source-literals")
+        rec.case("source-literals", (cc, b))
     return rec
 
 
@@ -351,6 +416,8 @@ def run(ctx):
     need = []
     for cc in onat.LISTED:
         need += [f"{cc}-accept", f"{cc}-reject"]
-    ctx.require_classes("registry-independence", "unlisted-valid", "mutant", "sweeps", "edge-sweeps", "sibling-text", "bban-object-direct", "bban-object-from_components", *need)
+    from ._configs import stage as _config_stage
+    _config_stage(ctx, ['national'])
+    ctx.require_classes("source-literals", "registry-independence", "unlisted-valid", "mutant", "sweeps", "edge-sweeps", "sibling-text", "bban-object-direct", "bban-object-from_components", *need)
     ctx.extra["per_country"] = {cc: {"accept": ctx.rec.classes.get(f"{cc}-accept", 0),
                                      "reject": ctx.rec.classes.get(f"{cc}-reject", 0)} for cc in onat.LISTED}
